@@ -100,3 +100,54 @@ emit(type(e), e:sub(1, 9))
 		vhInt(n),
 		vhStr("string"), vhStr("corpus:10")), "position-prefix-rules")
 }
+
+// nested protected calls with different handlers: an error is handled by the
+// message handler of the nearest enclosing xpcall only — a handler of an inner
+// scope that has already completed is never applied to an error of an
+// enclosing scope, and a plain pcall delivers the raw value
+func VerifH_C11_nested_scopes_nearest_handler() {
+	run := vhNewRun()
+	v := vhInt(nondetInt64("v"))
+	k := int64(verifChoose("k", 5)) // which scope raises: 0 none, 1 outer pcall, 2 middle xpcall, 3 inner pcall, 4 outermost xpcall
+	_, err := run.lua(`
+local v, k = ...
+emit("r0", xpcall(function()
+  emit("r1", pcall(function()
+    emit("r2", xpcall(function()
+      emit("r3", pcall(function() if k == 3 then error(v, 0) end return "done3" end))
+      if k == 2 then error(v, 0) end
+      return "done2"
+    end, function(e) emit("h2", e) return "H2" end))
+    if k == 1 then error(v, 0) end
+    return "done1"
+  end))
+  if k == 4 then error(v, 0) end
+  return "done0"
+end, function(e) emit("h0", e) return "H0" end))
+`, v, vhInt(k))
+	verifAssert(err == nil, "chunk-runs")
+	T, F := rt.BoolValue(true), rt.BoolValue(false)
+	var want []rt.Value
+	add := func(vs ...rt.Value) { want = append(want, vs...) }
+	if k == 3 {
+		add(vhStr("r3"), F, v)
+	} else {
+		add(vhStr("r3"), T, vhStr("done3"))
+	}
+	if k == 2 {
+		add(vhStr("h2"), v, vhStr("r2"), F, vhStr("H2"))
+	} else {
+		add(vhStr("r2"), T, vhStr("done2"))
+	}
+	if k == 1 {
+		add(vhStr("r1"), F, v)
+	} else {
+		add(vhStr("r1"), T, vhStr("done1"))
+	}
+	if k == 4 {
+		add(vhStr("h0"), v, vhStr("r0"), F, vhStr("H0"))
+	} else {
+		add(vhStr("r0"), T, vhStr("done0"))
+	}
+	verifAssert(vhTraceIs(run.trace, want...), "error-handled-by-the-nearest-enclosing-scope-only")
+}
